@@ -6,6 +6,8 @@ ENGINES = {
     "hashmb": dict(src=["harness/hashmb.c", "harness/hashbig.c", "harness/hashalgs.c"]),
     "aesdiff": dict(src=["harness/aesdiff.c", "harness/aesfam.c"]),
     "mhroll": dict(src=["harness/mhroll.c"]),
+    "bounds": dict(src=["harness/bounds.c", "harness/aesfam.c"]),
+    "trampeng": dict(src=["harness/trampeng.c", "harness/tramp.c", "harness/tramp.S", "harness/aesfam.c", "harness/hashalgs.c"], ldflags=["-rdynamic"]),
 }
 
 DEFAULT_LEVEL_TEXT = ("exploration: the property is checked on every execution of a seeded, boundary-biased workload against an independent oracle; "
@@ -71,6 +73,103 @@ def mh_tasks(prop, whats, fams, quick_n, thorough_n, variants=("plain", "asan"),
                                           args=["--prop", prop, "--what", what, "--fam", fam, "--from", f, "--count", c]))
         return tasks
     return gen
+
+
+def bounds_tasks(tier):
+    n = 1300 if tier == "quick" else 30000
+    parts = 1 if tier == "quick" else 4
+    tasks = []
+    plan = [("gcm", GCM_FAMS), ("gcmstream", GCM_FAMS), ("xts", ["sse", "avx", "vaes"]), ("cbc", ["sse", "avx", "avx512_g2"]),
+            ("mh", MH_FAMS), ("rolling", ["base", "00", "04"])]
+    for what, fams in plan:
+        for fam in fams:
+            for (f, c) in split(n, parts):
+                tasks.append(dict(engine="bounds", variant="plain", args=["--prop", "C08", "--what", what, "--fam", fam, "--from", f, "--count", c]))
+    hn = 400 if tier == "quick" else 8000
+    for alg in HASH_ALGS:
+        tasks.append(dict(engine="hashmb", variant="plain", args=["--prop", "C08", "--alg", alg, "--route", "fam,isal,legacy", "--inject", 5, "--guard", 1, "--from", 0, "--count", hn]))
+        tasks.append(dict(engine="hashmb", variant="asan", args=["--prop", "C08", "--alg", alg, "--route", "fam,isal", "--inject", 5, "--from", 0, "--count", hn]))
+    return tasks
+
+
+TRAMP_GROUPS = ["hash", "hashjob", "gcm", "xts", "cbc", "mh", "rolling", "misc"]
+
+
+def tramp_tasks(prop, mode, groups, quick_n, thorough_n, extra_fips=False):
+    def gen(tier):
+        n = quick_n if tier == "quick" else thorough_n
+        tasks = []
+        for g in groups:
+            if g == "hash":
+                for alg in HASH_ALGS:
+                    for (f, c) in split(max(4, n // 8), 1 if tier == "quick" else 2):
+                        tasks.append(dict(engine="trampeng", variant="plain", args=["--prop", prop, "--mode", mode, "--what", g, "--alg", alg, "--from", f, "--count", c]))
+            else:
+                nn = n if g not in ("hashjob", "misc") else max(4, n // 8)
+                for (f, c) in split(nn, 2 if tier == "quick" else 4):
+                    tasks.append(dict(engine="trampeng", variant="plain", args=["--prop", prop, "--mode", mode, "--what", g, "--from", f, "--count", c]))
+        if extra_fips:
+            tasks.append(dict(engine="trampeng", variant="fips", args=["--prop", prop, "--mode", mode, "--what", "misc", "--from", 0, "--count", 20]))
+        return tasks
+    return gen
+
+
+def abi_expected(libinfo):
+    """ABI-bound entry points of the build: global text symbols of assembly objects that are referenced from a compiled C
+    object or from a *_multibinary object, plus the public isal_ and legacy API."""
+    import subprocess, os, re
+    asm_def, c_pub, refs = {}, set(), set()
+    for o in libinfo["objs"]:
+        path = os.path.join(libinfo["dir"], "obj", o["name"])
+        out = subprocess.run(["nm", path], capture_output=True, text=True).stdout
+        for ln in out.splitlines():
+            p = ln.split()
+            if len(p) == 3 and p[1] == "T":
+                if "_slver" in p[2] or p[2] == "TABLE":
+                    continue
+                if o["kind"] == "asm":
+                    asm_def[p[2]] = o["name"]
+                elif not p[2].startswith("_"):
+                    c_pub.add(p[2])
+            elif len(p) == 2 and p[0] == "U":
+                if o["kind"] == "c" or "multibinary" in o["name"]:
+                    refs.add(p[1])
+    abi = set(n for n in asm_def if n in refs)
+    # public API = the export list of the repository
+    exported = set()
+    try:
+        for ln in open(os.path.join(libinfo.get("repo", "/repo"), "isa-l_crypto.def")):
+            m = re.match(r"^(\w+)\s+@\d+", ln.strip())
+            if m:
+                exported.add(m.group(1))
+    except OSError:
+        pass
+    if exported:
+        c_pub = set(n for n in c_pub if n in exported)
+    # dispatched entries are reached from C through their own object: they are in refs already
+    return abi, c_pub
+
+
+def abi_post(results, libinfos, counts):
+    called = set()
+    for r in results:
+        for l in r["lines"]:
+            if l.get("t") == "called":
+                called.update(l["names"])
+    problems, info = [], {}
+    for variant, li in libinfos.items():
+        abi, pub = abi_expected(li)
+        if variant != "plain":
+            # the fips build only adds the status functions
+            abi = set(n for n in abi if n.startswith("asm_"))
+            pub = set()
+        miss = sorted((abi | pub) - called)
+        info["abi_bound_asm_symbols_" + variant] = len(abi)
+        info["public_symbols_" + variant] = len(pub)
+        if miss:
+            problems.append("ABI-bound entry point(s) of the %s build never driven through the trampoline (no descriptor): %s" % (variant, " ".join(miss[:40])))
+    info["distinct_functions_called"] = len(called)
+    return problems, info
 
 
 MH_FAMS = ["base", "sse", "avx", "avx2", "avx512"]
@@ -166,5 +265,53 @@ CHECKS = {
               "the 256-entry table is compared with a pinned golden copy; mask_gen is checked for all shifts around all powers of two"),
         assumptions=TRUST + ["golden copy of the rolling-hash table taken from the pinned snapshot (the constant defines the on-disk chunking format)"],
         tasks=mh_tasks("C09", ["rolling"], ["base", "00", "04"], 1500, 30000),
+    ),
+    "C08": dict(
+        level="exploration", evaluations=["guarded_calls", "ops"], must_observe=["guarded_calls", "fam_runs", "cbc_len0_calls", "ops"],
+        rule=("every argument buffer is exactly as long as the API states and is placed at random end-flush / start-flush / mid (canary-filled slack) against PROT_NONE pages; "
+              "inputs (data, AAD, 12-byte IV, tweak, keys, schedules, constant key data, rolling window) are mapped read-only during the call; zero-length buffers point at an "
+              "inaccessible page; lengths: every value 0..1100 (GCM, XTS 16..1116), 16*N for N in 0..80 (CBC, incl. 0), 0..1200 (multi-hash), windows 1..48 with max_len 0/<w/=w/w+1.. "
+              "(rolling, buffer start-flush so buffer[i-w] would fault), plus random larger; GCM one-shot/stream/nt/precompute, XTS raw/expanded, CBC, key expansion, multi-hash "
+              "update/finalize (digest outputs exactly 20/32/16 bytes), rolling init/reset/run, and hash submit/flush histories with each segment in its own exact read-only mapping; "
+              "all families via family symbols, isal_ and legacy API (forced dispatch); a SIGSEGV outside the supplied ranges, a write into an input or a damaged canary is a violation; "
+              "the same hash histories also run on an AddressSanitizer build of the C layers; distinct_nontrivial = distinct (operation, family, key size, direction, route, in-place, length class)"),
+        assumptions=TRUST + ["reads that stay inside the page of a mid-placed buffer are invisible to guard pages (end/start placements cover both sides); the <64-byte slack of 64-byte aligned nt buffers is only canary-checked for writes",
+                             "internal family symbols are called the way the library's own wrappers call them"],
+        tasks=bounds_tasks,
+    ),
+    "C19": dict(
+        level="exploration", evaluations="tramp_calls", must_observe=["tramp_calls", "scenarios"],
+        rule=("every library call of a scenario is made through a trampoline on a private stack: sentinels in rbx, rbp, r12-r15, patterns in all other registers, "
+              "non-default MXCSR rounding and x87 control word, canary words above the callee's stack arguments; after the call rsp, the six callee-saved registers, DF, "
+              "MXCSR control bits, the x87 control word and the canaries are compared. Scenarios: hash managers at context level (5 algorithms x all families x family/isal_/legacy/"
+              "dispatched-entry routes, submits into empty..full managers, rejected submit, flush with 0..n live lanes), job-level assembly managers called directly, GCM "
+              "(key setup, one-shot, nt, init/update/finalize over 44 length classes), XTS (39 length classes incl. <16), CBC and key expansion, multi-hash update/finalize and the "
+              "assembly block functions, rolling-hash API and the three scan kernels (9 arguments, 3 on the stack), sha512_sse4, version and FIPS status functions; dispatched entries are "
+              "re-armed so the resolver's push/pop ladder runs under the trampoline. The set of ABI-bound symbols is computed from nm of the build (assembly globals referenced from C "
+              "or multibinary objects + public API) and a symbol never driven is a harness error. distinct_nontrivial = distinct (function, argument class)"),
+        assumptions=TRUST + ["internal kernels reached only from other assembly with private register conventions (e.g. sha256_mb_x8_avx2) are outside the property and are not called directly"],
+        tasks=tramp_tasks("C19", "abi", TRAMP_GROUPS, 160, 4000, extra_fips=True), post=abi_post,
+    ),
+    "C14": dict(
+        level="exploration", evaluations="tramp_calls", must_observe=["tramp_calls", "scenarios"],
+        rule=("AES scenarios (GCM key setup/one-shot/nt/stream, XTS raw and expanded, CBC, key expansion; all families; family, isal_, legacy and dispatched-entry routes; 44/39/27 "
+              "length classes) run through the trampoline with random keys; after every call all 32 vector registers (each 16-byte lane of the full 512 bits) and the 64 KiB below "
+              "the caller's stack pointer (every byte offset; the zone is pattern-filled right before the call) are searched for the case's secret blocks computed by the reference: "
+              "raw key halves, every encryption and decryption round key, GHASH key H raw and byte-reflected, every 16-byte entry of the hash-key table as stored by precompute, "
+              "E_K2(tweak). distinct_nontrivial = distinct (function, argument class)"),
+        assumptions=TRUST + ["a secret kept in another encoding (masked, split across registers) is not recognised; general-purpose registers are not scanned (the property names vector registers and stack)"],
+        tasks=tramp_tasks("C14", "secrets", ["gcm", "xts", "cbc"], 400, 12000),
+    ),
+    "C20": dict(
+        level="exploration", evaluations=["paired_scenarios", "paired_histories"], must_observe=["paired_scenarios", "paired_histories", "tramp_calls"],
+        rule=("every scenario/history is executed three times with identical declared inputs and identical object addresses but different hidden state: "
+              "A = all-zero, B = all-ones, C = seeded random patterns in (i) output-buffer prefill, (ii) manager/context/key-data/state memory before the API initialises it, "
+              "(iii) all caller-saved GPRs that are not arguments, zmm0-31, k0-7, arithmetic flags, (iv) the 256 KiB of dead stack below the call, and for public C entry points "
+              "(v) the upper halves of registers carrying 32-bit arguments. Observables hashed and compared: return values, returned-context identities, status/error fields, "
+              "digests, tags, output bytes, offsets/matches and everything observable in the rest of the scenario. Scenarios: trampoline scenarios of C19 (all groups, all families, "
+              "four routes) plus hashmb histories (all 28 hash families x 3 routes) run under 0x00 / 0xff / random junk in manager and context memory"),
+        assumptions=TRUST + ["a dependence on hidden state that happens not to change any observable for the three patterns is missed",
+                             "internal assembly entries receive zero-extended 32-bit arguments, as the library's own compiled C passes them"],
+        tasks=lambda tier: tramp_tasks("C20", "hidden", TRAMP_GROUPS, 120, 4000)(tier) + hash_tasks("C20", 300, 20000, 6, extra=["--pair", 1], parts_q=1, parts_t=3)(tier),
     ),
 }
